@@ -121,7 +121,12 @@ def check_case(ctx, case):
             files.write_catalog_forecast(path, cats, case["enc"], header=case["header"], frac=case.get("timefmt", "auto"),
                                          eol=case.get("eol", "\r\n"), final_newline=case.get("final_newline", True))
             ctx.count("well_formed_file_loaded_after_a_refused_one")
-        for name, f in loaders(as_path(case, path), n):
+        order = loaders(as_path(case, path), n)
+        if case.get("swap") is not None:
+            # right after a refused load the FIRST pass over the well-formed file is a judged one (a different loader from case to case)
+            k = 2 + case["swap"] % (len(order) - 2) if len(order) > 3 else 0
+            order = order[k:] + order[:k]
+        for name, f in order:
             o = call(f)
             if not o.ok:
                 ctx.unexpected(o, name + (":pathlib" if case.get("pathlib") else ""))
